@@ -32,6 +32,9 @@ def run_case(rng, tier, case):
     spec = gen.strip_private(base)
     if cap_levels:
         case.feature('capacity_from_data')
+    for a_ in spec['assets']:
+        if (a_.get('min_take') or a_.get('max_take')) and rng.random() < 0.4:
+            a_['_container'] = 'array'          # take volumes / dates handed over as numpy arrays
     g = spec['grid']
     pts = gen.grid_points(g); T = len(pts)
     for t in gen.asset_types(spec):
@@ -93,9 +96,12 @@ def run_case(rng, tier, case):
     x0 = np.asarray(r0.res.x, float).copy()
     pr = r0.built.prices if same_prices else {k: np.asarray(v) for k, v in gen.gen_prices(rng, T, sorted(spec['prices']), cap_levels=cap_levels).items()}
     spec2 = spec if same_prices else dict(spec, prices={k: [float(x) for x in v] for k, v in pr.items()})
-    # a fresh set of objects for the fixed run, the window dictionary passed as a copy
+    # a fresh set of objects for the fixed run - or (rolling re-planning) the objects that produced the first solution -, the window dictionary passed as a copy
     fw = {'I': copy.deepcopy(I), 'x': x0.copy()}
-    r1 = flow.run_portfolio(spec2, do_extract=False, fix_time_window=fw, split=split)
+    same_objects = rng.random() < 0.5
+    if same_objects:
+        case.feature('fixed_run_on_same_objects')
+    r1 = flow.run_portfolio(spec2, do_extract=False, fix_time_window=fw, split=split, built=r0.built if same_objects else None, prices=pr if same_objects else None)
     if not r1.ok:
         case.check('fix.setup_works', False, window=wkind, split=split, error=flow.describe_error(r1)); return
     case.check('fix.setup_works', True, window=wkind)
